@@ -58,6 +58,12 @@ def facts(src):
     out.append('Definition declared : list (text * (list N * list N * list (N * N) * list N)) := [\n  '
                + ';\n  '.join(rows) + '].\n')
     out.append('Definition default_view_preds : list text := %s.\n' % F.coq_texts(preds))
+    weights, wexpr = T.predicate_weights(src, problems)
+    if wexpr != '1 << n + 1':
+        problems.append('PredicateList.make: weight expression changed \'1 << n + 1\' -> %r' % wexpr)
+    out.append('(* weight of the predicate at position n of the predicate list: %s *)\n' % wexpr.replace('*)', '* )'))
+    out.append('Definition pred_weights : list N := [%s]%%N.\n' % '; '.join(str(w) for w in weights))
     summary.update({'phases': ph, 'default_order': ex['default_order'], 'n_sites': len(sites),
-                    'sites': {s[0]: [s[1], s[2], s[3]] for s in sites}, 'default_view_predicates': preds})
-    return {'coq': ''.join(out), 'summary': summary, 'problems': problems, 'sites': sites, 'preds': preds}
+                    'sites': {s[0]: [s[1], s[2], s[3]] for s in sites}, 'default_view_predicates': preds,
+                    'weight_expr': wexpr})
+    return {'coq': ''.join(out), 'summary': summary, 'problems': problems, 'sites': sites, 'preds': preds, 'weights': weights}
